@@ -94,7 +94,7 @@ impl SendBuffer {
     async fn buffer_publish_messages(self, mut rx: mpsc::Receiver<KeyValuePair>) {
         while let Some(KeyValuePair { key, value }) = rx.recv().await {
             let previous = self
-                .set_buffer
+                .publish_buffer
                 .lock()
                 .expect(LOCK_MSG)
                 .insert(key.clone(), value);
